@@ -474,18 +474,25 @@ def io(prog, ctx):
     for f in efs:
         ps = [p['name'] for p in f.params]
         if f.params[2]['ty'].startswith('std::vector'):
-            pb = [c for c in calls(f) if c.get('kind') == 'method' and c['callee']['name'] == 'push_back']
+            # the table handed to Export_Table, from the loop summary: row k = {x_list[k], func(x_list[k])}, one row per list element
             tab = [c for c in calls(f) if (c.get('callee') or {}).get('q') == L + 'Export_Table']
-            okf = len(pb) == 1 and len(tab) == 1
+            okf = len(tab) == 1
             if okf:
-                row = show(pb[0]['args'][0]).replace(' ', '')
-                rf = [(s, loop_container(s)) for s in walk_stmts(f.body) if s['k'] == 'For' and loop_container(s) is not None]
-                okf = len(rf) == 1
+                try:
+                    sxf = Symx(prog, f)
+                    fouts = sxf.run()
+                except Undecided:
+                    fouts = []
+                okf = len(fouts) == 1
                 if okf:
-                    xv = '%s[%s]' % (show(rf[0][1][0]), rf[0][1][1])
-                    data = show(pb[0]['obj']).replace(' ', '')
-                    okf = ('{%s,%s(%s)}' % (xv, ps[1], xv)) in row and [show(strip_casts(a)).replace(' ', '') for a in tab[0]['args']] == [ps[0], data, ps[3], ps[4]] \
-                        and show(rf[0][1][0]) == ps[2]
+                    targs = [strip_casts(a) for a in tab[0]['args']]
+                    dkey = sxf.lv_key(targs[1]) if targs[1].get('k') == 'Ref' else None
+                    darr = fouts[0].state.env.get(dkey) if dkey is not None else None
+                    kk_ = sp.Symbol('k', integer=True)
+                    Xl = Function(ps[2], real=True)
+                    okf = isinstance(darr, Arr) and darr.length == sp.Symbol('len(%s)' % ps[2], integer=True, nonnegative=True) \
+                        and darr.read((kk_,)) == sp.Tuple(Xl(kk_), Function('F:' + ps[1], real=True)(Xl(kk_))) \
+                        and [show(a).replace(' ', '') for a in (targs[0], targs[2], targs[3])] == [ps[0], ps[3], ps[4]]
             ctx.decide(R, 'Export_Function(list)', f, okf, 'Export_Table of the rows {x, f(x)} for every x of the list', 'Export_Function(list) not recognised')
         else:
             dl = [c for c in calls(f) if (c.get('callee') or {}).get('q') == L + 'Export_Function']
